@@ -39,6 +39,9 @@ structure DState where
   st : St := {}
   segBefore : Obs := {}
   segEvs : List Ev := []
+  /-- length of `segEvs` at every open SAVEPOINT: a rollback to it erases the bracket from the event list the
+  segment predicates are evaluated on (`sp_bracket_erase`: the erased history reaches the same state up to the cache) -/
+  spMarks : List Nat := []
   pend : Obs := {}            -- the implementation's observation being received
   mBefore : Obs := {}         -- the model's observation at the last transaction boundary
   wf : Bool := true           -- every event so far satisfied the contract EvOK
@@ -343,9 +346,20 @@ def handle (st : DState) (toks : List String) : DState × Option String :=
         | .commit => true
         | .rollback => true
         | _ => false
-      let ok : Bool := decide (EvOK st.cfg st.st e) && decide (UpdShapeOK st.cfg st.st e)
+      let ok : Bool := match e with
+        -- a rollback to a savepoint is handled by erasure (needs: nothing pending when the savepoint began)
+        | .spRollback => !st.spMarks.isEmpty
+        | .spBegin => decide (st.st.uowD.pending = [])
+        | _ => decide (EvOK st.cfg st.st e) && decide (UpdShapeOK st.cfg st.st e)
       let first := if st.wf && !ok then s!"{st.nev}:{rest.headD "?"}" else st.wfFirst
-      ({ st with st := step st.cfg st.st e, segEvs := if isEnd then st.segEvs else st.segEvs ++ [e],
+      let (segEvs', marks') : List Ev × List Nat := match e with
+        | .spBegin => (st.segEvs ++ [e], st.segEvs.length :: st.spMarks)
+        | .spCommit => (st.segEvs ++ [e], st.spMarks.tail)
+        | .spRollback => (match st.spMarks with
+            | [] => (st.segEvs, [])
+            | m :: ms => (st.segEvs.take m, ms))
+        | _ => (if isEnd then st.segEvs else st.segEvs ++ [e], if isEnd then [] else st.spMarks)
+      ({ st with st := step st.cfg st.st e, segEvs := segEvs', spMarks := marks',
                  wf := st.wf && ok, wfFirst := first, nev := st.nev + 1 }, none)
     | none => (st, bad)
   | ["iv", tid, pk, tx, e, op, vals, mods] =>
